@@ -358,8 +358,24 @@ Definition spec_sexp (e : sexp) : sexp :=
   | _ => A "undecodable"
   end.
 
+(* Sexp.tokens_aux binds `flush := [TA (rev cur)]` with a let at every character; extracted to strict
+   OCaml that is a reversal per character (quadratic in the atom length, 10 ms for a 300-digit atom).
+   Same tokenizer with the reversal only where an atom ends. *)
+Definition flush_tok (cur : list N) (k : list tok) : list tok :=
+  match cur with [] => k | _ => TA (rev cur) :: k end.
+Fixpoint tokens_fast (cur : list N) (l : list N) : list tok :=
+  match l with
+  | [] => flush_tok cur []
+  | c :: r =>
+      if is_space c then flush_tok cur (tokens_fast [] r)
+      else if (c =? lparen)%N then flush_tok cur (TL :: tokens_fast [] r)
+      else if (c =? rparen)%N then flush_tok cur (TR :: tokens_fast [] r)
+      else tokens_fast (c :: cur) r
+  end.
+Definition parse_fast (l : list N) : option sexp := parse_toks (tokens_fast [] l) [[]].
+
 Definition run_line (l : list N) : list N :=
-  match parse l with
+  match parse_fast l with
   | Some (SList [k; e]) => if atom_is "spec" k then print (spec_sexp e) else print (run_sexp (SList [k; e]))
   | Some e => print (run_sexp e)
   | None => codes "unparsable"
